@@ -1,3 +1,4 @@
+import Sparrow.Proofs.KangBandLocal
 import Sparrow.Proofs.KangRunText
 import Sparrow.Proofs.KangInitRefine
 import Sparrow.Proofs.KangRecvRefine
@@ -521,3 +522,36 @@ example : (∀ w, w ∈ [1] ↔ w < g0.W ∧ w ≠ g0.wall 0) ∧ (∀ i, i < g0
     simp [g0, KangGeom.dist, Vec3.norm, Vec3.dot, Vec3.sub, Vec3.ofFn, binKang, ToBin.floorNat]
 
 end Sparrow.Props.C19.NonVacuous2
+
+namespace Sparrow.Props.C19.BandLocal
+open Sparrow Sparrow.Generated.KangFn
+
+
+theorem initEnergyExchange_band_local (thr11 dl dm dn ddl ddm sx sy sz power : ℝ) (absorption absorption' : Nat → ℝ) (dist : ℝ)
+    (attenuation attenuation' : Nat → ℝ) (n n' b : Nat) (hb : b < n) (hb' : b < n')
+    (ha : absorption b = absorption' b) (hm : attenuation b = attenuation' b) :
+    initEnergyExchange thr11 dl dm dn ddl ddm sx sy sz power absorption dist attenuation n b =
+      initEnergyExchange thr11 dl dm dn ddl ddm sx sy sz power absorption' dist attenuation' n' b :=
+  Sparrow.initEnergyExchange_band_local thr11 dl dm dn ddl ddm sx sy sz power absorption absorption' dist attenuation attenuation' n n' b hb hb' ha hm
+
+
+theorem exchangeContribution_band_local (receiver source : Nat → ℝ) (c fs : ℝ) (A : Nat → ℝ) (n : Nat) (ff : ℝ)
+    (absorption absorption' scattering scattering' att att' : Nat → ℝ) (f : Nat)
+    (ha : absorption f = absorption' f) (hs : scattering f = scattering' f) (hm : att f = att' f) :
+    exchangeContribution receiver source c fs A n ff absorption scattering att f =
+      exchangeContribution receiver source c fs A n ff absorption' scattering' att' f :=
+  Sparrow.exchangeContribution_band_local receiver source c fs A n ff absorption absorption' scattering scattering' att att' f ha hs hm
+
+
+theorem receiverContribution_band_local (center recv normal : Nat → ℝ) (c fs : ℝ) (E : Nat → ℝ) (n : Nat) (att att' : Nat → ℝ)
+    (f : Nat) (hm : att f = att' f) :
+    receiverContribution center recv normal c fs E n att f = receiverContribution center recv normal c fs E n att' f :=
+  Sparrow.receiverContribution_band_local center recv normal c fs E n att att' f hm
+
+
+theorem directSoundKang_band_local (recv src : Nat → ℝ) (M M' : Nat → ℝ) (c fs : ℝ) (b : Nat) (hm : M b = M' b) :
+    (directSoundKang recv src M c fs).2 b = (directSoundKang recv src M' c fs).2 b ∧
+      (directSoundKang recv src M c fs).1 = (directSoundKang recv src M' c fs).1 :=
+  Sparrow.directSoundKang_band_local recv src M M' c fs b hm
+
+end Sparrow.Props.C19.BandLocal
